@@ -307,7 +307,7 @@ func (p *Path) callBuiltin(b *ssa.Builtin, args []Value, caller *frame, site ssa
 	case "copy":
 		return p.doCopy(args[0].(*SliceV), args[1])
 	case "panic":
-		panic(&goPanic{val: args[0], msg: "panic"})
+		panic(&goPanic{val: args[0], msg: "panic", pos: p.where()})
 	case "recover":
 		// the function calling recover() is the deferred function `caller`;
 		// the panicking frame is caller.caller
